@@ -19,6 +19,26 @@ NOGROW = ('wav_write_header', 'aiff_write_header', 'rf64_write_header')
 BLOCK_RESTORE = {'sds_write_header': ('writer', ['psds->write_count', 'psds->write_block'])}
 
 
+def block_restore(ctx, prog):
+    ctx.rule('BLOCK-RESTORE', 'frozen instances: a write_header that calls a codec block writer through a private function pointer saves the listed counters before the call and restores them after it '
+             'on every path (the temporary flush must not advance the encoder state)', floor=1)
+    for name, (slotfield, fields) in BLOCK_RESTORE.items():
+        f = prog.fn(name)
+        calls = [c for c in f.calls() if prog.indirect_callee_slot(f, c) and prog.indirect_callee_slot(f, c)[1] == slotfield]
+        ctx.require(calls, '%s no longer calls ->%s' % (name, slotfield))
+        for fld in fields:
+            saves = [(n, d['n']) for n in f.walk() if n['k'] == 'DeclStmt' for d in n.get('decls', []) if 'init' in d and d['init'] >= 0 and f.s(d['init']) == fld]
+            saves += [(n, f.s(n['kids'][0])) for (lv, n, rhs) in assigned_lvalues(f) if rhs is not None and f.s(rhs) == fld and f.unwrap(f.N[n['kids'][0]])['k'] == 'DeclRefExpr']
+            ok = False
+            for c in calls:
+                sv = [v for (n, v) in saves if f.cfg.dominates(n, c)]
+                rest = [n for (lv, n, rhs) in assigned_lvalues(f) if lv == fld and rhs is not None and f.s(rhs) in sv]
+                if sv and rest:
+                    okp, w = f.cfg.must_pass(c, rest)
+                    ok = okp
+            ctx.ob('BLOCK-RESTORE', '%s:%s' % (name, fld), ok, f.loc(calls[0]), '%s %s around the temporary block flush' % (fld, 'saved and restored' if ok else 'NOT saved/restored'), None)
+
+
 def run(ctx):
     prog = ctx.prog
     E = prog.enums
@@ -117,20 +137,4 @@ def run(ctx):
         pos = [n for n in f.walk() if n['k'] == 'MemberExpr' and n.get('rec') == 'sf_private_tag' and n['n'] in ('write_current', 'read_current')]
         ctx.ob('HDR-NO-POS', name, not pos, f.loc(pos[0]) if pos else f.loc(f.body), 'no position field used' if not pos else 'uses %s to compute header contents' % sorted({f.s(n) for n in pos}), None)
 
-    ctx.rule('BLOCK-RESTORE', 'frozen instances: a write_header that calls a codec block writer through a private function pointer saves the listed counters before the call and restores them after it '
-             'on every path (the temporary flush must not advance the encoder state)', floor=1)
-    for name, (slotfield, fields) in BLOCK_RESTORE.items():
-        f = prog.fn(name)
-        calls = [c for c in f.calls() if prog.indirect_callee_slot(f, c) and prog.indirect_callee_slot(f, c)[1] == slotfield]
-        ctx.require(calls, '%s no longer calls ->%s' % (name, slotfield))
-        for fld in fields:
-            saves = [(n, d['n']) for n in f.walk() if n['k'] == 'DeclStmt' for d in n.get('decls', []) if 'init' in d and d['init'] >= 0 and f.s(d['init']) == fld]
-            saves += [(n, f.s(n['kids'][0])) for (lv, n, rhs) in assigned_lvalues(f) if rhs is not None and f.s(rhs) == fld and f.unwrap(f.N[n['kids'][0]])['k'] == 'DeclRefExpr']
-            ok = False
-            for c in calls:
-                sv = [v for (n, v) in saves if f.cfg.dominates(n, c)]
-                rest = [n for (lv, n, rhs) in assigned_lvalues(f) if lv == fld and rhs is not None and f.s(rhs) in sv]
-                if sv and rest:
-                    okp, w = f.cfg.must_pass(c, rest)
-                    ok = okp
-            ctx.ob('BLOCK-RESTORE', '%s:%s' % (name, fld), ok, f.loc(calls[0]), '%s %s around the temporary block flush' % (fld, 'saved and restored' if ok else 'NOT saved/restored'), None)
+    block_restore(ctx, prog)
